@@ -53,9 +53,16 @@ package parse
 //@   ensures typ == Bareword ==> q == Bareword && out === s && len(s) > 0 && s[0] != '~'
 //@   ensures typ == Bareword || typ == SingleQuoted || typ == DoubleQuoted
 
+// quoteDouble: which escape form is used for which character. \xHH denotes one BYTE when read back, so it
+// may only be used for a byte of an invalid sequence or for an ASCII character (which is its own byte);
+// \uHHHH only for code points that fit four hex digits; everything else gets \UHHHHHHHH. (The hex digits
+// themselves round-trip: verifHexRoundTrip.)
 //@ func quoteDouble
-//@   trusted
+//@   props C03
 //@   pure
+//@   nosafety
+//@   log rtohex
+//@   before rtohex [escape-form-fits-the-character] (arg1 == 2 || arg1 == 4 || arg1 == 8) && (arg1 == 2 ==> (r == RuneError && w == 1 && arg0 == s[0]) || (0 <= arg0 && arg0 <= 127 && arg0 == r)) && (arg1 == 4 ==> 0 <= arg0 && arg0 <= 65535 && arg0 == r) && (arg1 == 8 ==> arg0 == r)
 //@ func quoteSingle
 //@   trusted
 //@   pure
